@@ -62,7 +62,7 @@ def run(pid, tier, args):
                 o = oracle[i]
                 if (o == "fail") != (want is None) or (want is not None and o != "ok " + want):
                     raise Infra("Conv.tla disagrees with strconv on %s %r: specification %s, strconv %s" % (c["kind"], c["s"], e, o))
-            if r.startswith("fail syntax"):
+            if r.startswith("fail syntax") and c["shape"] in ("joined", "joined0", "joinedsp"):
                 skipped += 1   # the text does not lex to the capture's tokens: not a conversion case
                 continue
             if c["variant"] in ("slice", "slicegrp") and want is not None:
